@@ -599,12 +599,14 @@ Blocked(p) == \/ L[p].pc = "w_park" /\ S[p].st = "STARV" /\ InWl(p)
 NoStuck == Terminal => \A p \in Procs : L[p].pc \in {"idle", "gone"} \/ Blocked(p)
 \* C06 as a temporal property: under weak fairness of every process (a scheduled thread keeps running) every
 \* operation that has started returns, or ends up legitimately blocked (listed, armed, nobody to serve it)
-Fairness == \A p \in Procs : WF_vars(Step(p))
+Fairness == WF_vars(Tick) /\ \A p \in Procs : WF_vars(Step(p))
+\* a timed wait whose deadline lies beyond the bounded model clock can spin for ever in the model only
+BeyondClock(p) == L[p].kind \in TimedKinds /\ L[p].pc # "now0" /\ L[p].dl > MaxNow
 FairSpec == Spec /\ Fairness
-Busy(p) == L[p].pc \notin {"idle", "gone"} /\ ~Blocked(p)
+Busy(p) == L[p].pc \notin {"idle", "gone"} /\ ~Blocked(p) /\ ~BeyondClock(p)
 Completes == \A p \in Procs : Busy(p) ~> ~Busy(p)
 \* a released waiter (final state stored into its signal) always gets to return
-ReleasedReturns == \A p \in Procs : (S[p].st \in Final /\ L[p].pc \in {"w_park", "w_spin", "w_chk", "tw_now", "tw_load"}) ~> (S[p].st = "NIL")
+ReleasedReturns == \A p \in Procs : (S[p].st \in Final /\ L[p].pc \in {"w_park", "w_spin", "w_chk", "tw_now", "tw_load"}) ~> (S[p].st = "NIL" \/ BeyondClock(p))
 NoLeak == Terminal => \A m \in G.created :
              \/ Cnt(G.delivered, m) + Cnt(G.dropped, m) = 1
              \/ InQueue(m)
